@@ -489,6 +489,12 @@ class Normal:
             r = self.sl.mk_unwrap(out[1], 1)
         elif out[0] == 'field' and len(out) == 3 and isinstance(out[2], str):
             r = self.sl._field(out[1], out[2])
+            # a field of which a part was assigned afterwards (`d.platform.os = ..`) is not the field of the base value
+            b = out[1]
+            while isinstance(b, tuple) and b and b[0] in ('unwrap', 'updated'):
+                if b[0] == 'updated' and any(isinstance(pj, str) and pj.startswith('.' + out[2] + '.') for pj, _ in b[2]):
+                    return ('unknown', 'field %s assigned piecewise' % out[2])
+                b = b[1]
         elif out[0] == 'variant' and len(out) == 3 and isinstance(out[2], str):
             r = self.sl._variant(out[1], out[2])
         if r != out:
@@ -661,3 +667,190 @@ def chain_of(prog, sl, N, f, v):
             break
         v = s.coll
     return out, v
+
+
+# ------------------------------------------------------------------------------------------------------------------
+# values that are carried unchanged
+# ------------------------------------------------------------------------------------------------------------------
+# conversions between representations of the same string / path / URI (the slicer already reads as_str, to_string,
+# to_path_buf, From between string types .. as the value itself); only std and uriparse items
+_IDENT = re.compile(r"(::to_string_lossy|::to_str|::display|::into_owned|::to_owned|::into_string|::into_os_string|::as_os_str|"
+                    r"::to_os_string|::as_path|::to_path_buf|::into_path_buf|::as_ref|::borrow|::deref|::clone|::into|::from|"
+                    r"::new|::as_str|::to_string|::into_boxed_path|::into_boxed_str)$")
+_IDENT_HOME = re.compile(r"^<?&?(std|core|alloc|uriparse)::")
+_PAYLOAD = ('unwrap_or_default', 'unwrap_or', 'unwrap_or_else', 'unwrap', 'expect', 'unwrap_unchecked')
+
+
+def is_ident_name(name):
+    return bool(_IDENT.search(name) and _IDENT_HOME.match(name))
+
+
+def fmt_not_plain(sl, fns):
+    """formatting in the given functions that is not a plain `{}` (Display, no width / precision / flags): the value algebra
+    reads `format!("{}", x)`, `format!("{:?}", x)` and `format!("{:>8}", x)` alike as a text with the hole x"""
+    out = []
+    for g in fns:
+        for c in g.calls:
+            d = c.decl or c.name or ''
+            if d.startswith(('core::fmt::rt::Argument::', 'std::fmt::rt::Argument::')) and '::new_' in d and not d.endswith('::new_display'):
+                out.append('%s in %s' % (d.rsplit('::', 1)[-1], g.path.rsplit('::', 1)[-1]))
+            if d.startswith(('std::fmt::Arguments::', 'core::fmt::Arguments::')) and d.endswith('::new') and c.args:
+                tv = sl.operand(g, c.args[0])
+                if tv[0] == 'const' and isinstance(tv[1], (bytes, bytearray)):
+                    b, i = tv[1], 0
+                    while i < len(b):
+                        n = b[i]
+                        i += 1
+                        if n == 0:
+                            break
+                        if n < 0x80:
+                            i += n
+                        elif n == 0x80:
+                            i += 2 + (b[i] | (b[i + 1] << 8))
+                        elif n == 0xC0:
+                            continue
+                        else:
+                            out.append('a format spec in %s' % g.path.rsplit('::', 1)[-1])
+                            break
+                else:
+                    out.append('an unreadable format template in %s' % g.path.rsplit('::', 1)[-1])
+    return sorted(set(out))
+
+
+def carried(sl, v, depth=0, fmt=True):
+    """the value v is a representation of: identity conversions, success payloads (`?`, unwrap, unwrap_or*; the fallback
+    of an Option/Result is not part of its payload) and `map` / `map_or*` with an identity conversion are peeled.
+    fmt=False: a formatted text is not taken for its one hole (the caller found formatting other than plain Display)"""
+    for _ in range(24):
+        v = unwrapped(v)
+        if v[0] == 'fmt' and not fmt:
+            return v
+        if v[0] == 'fmt' and len(v) > 1 and isinstance(v[1], (tuple, list)):
+            # `format!("{}", x)` / `x.display().to_string()`: one hole and no literal text
+            parts = [p for p in v[1] if not (isinstance(p, tuple) and p and p[0] == 'const' and p[1] == '')]
+            if len(parts) == 1 and isinstance(parts[0], tuple) and parts[0] and parts[0][0] != 'const':
+                v = parts[0]
+                continue
+            return v
+        if v[0] != 'call' or not v[2]:
+            return v
+        fam, meth = comb(v)
+        if meth in _PAYLOAD:
+            v = sl.mk_unwrap(v[2][0], 1)
+            continue
+        if meth in ('map', 'map_or', 'map_or_else') and len(v[2]) in (2, 3):
+            f = peel(v[2][-1])
+            inner = sl.mk_unwrap(v[2][0], 1)
+            if f[0] == 'fnitem' and is_ident_name(f[1]):
+                v = inner
+                continue
+            if f[0] == 'closure' and depth < 4:
+                r = sl.apply_closure(f, (inner,))
+                if r is not None:
+                    v = r
+                    depth += 1
+                    continue
+            return v
+        if len(v[2]) == 1 and is_ident_name(v[1]):
+            v = v[2][0]
+            continue
+        return v
+    return v
+
+
+def mut_borrows(g):
+    """[(place, Call | None)]: every place of g of which a mutable reference (or raw pointer) is taken, with the call that
+    reference ends up in (through reborrows and deref_mut / as_mut_slice / iter_mut); None = stored or used otherwise"""
+    out = []
+    for bi, b in enumerate(g.blocks):
+        for st in b['s']:
+            if st[0] != '=' or not isinstance(st[2], dict):
+                continue
+            rv = st[2]
+            if not ((rv.get('r') == 'ref' and rv.get('mut')) or rv.get('r') == 'rawptr'):
+                continue
+            pl = rv['p']
+            if len(st[1]) != 1:
+                out.append((pl, None))
+                continue
+            work, seen = [st[1][0]], set()
+            while work:
+                r = work.pop()
+                if r in seen:
+                    continue
+                seen.add(r)
+                for ubi, kind, idx, how, upl in g.uses_of(r):
+                    if kind == 'arg':
+                        c = g.call_at(ubi)
+                        last = (c.name or c.decl or '').rsplit('::', 1)[-1] if c is not None else ''
+                        if c is not None and last in ('deref_mut', 'as_mut_slice', 'as_mut', 'iter_mut', 'borrow_mut') and c.dest and len(c.dest) == 1:
+                            work.append(c.dest[0])
+                        else:
+                            out.append((pl, c))
+                    elif kind == 'stmt':
+                        s2 = g.blocks[ubi]['s'][idx]
+                        if how in ('m', 'c', 'refmut', 'ref', 'rawptr') and len(s2[1]) == 1:
+                            work.append(s2[1][0])
+                        else:
+                            out.append((pl, None))
+                    elif kind == 'drop':
+                        continue
+                    else:
+                        out.append((pl, None))
+    return out
+
+
+def loop_total(g, L):
+    """the loop is left only when its iterator is exhausted: no other edge out of the body leads to a return of g
+    (`break`, early `return`); panicking exits do not produce a result"""
+    ex = getattr(L, 'exhaust', None)
+    if ex is None:
+        return False
+    rets = set(g.return_blocks())
+    for b in L.body:
+        for s in g.succs(b):
+            if s in L.body or (b, s) == tuple(ex):
+                continue
+            if rets & g.reachable(s):
+                return False
+    return True
+
+
+def settle(v):
+    """an aggregate with the field assignments made to it after its construction applied (`let mut d = T { .. }; d.f = x; d`):
+    a wholly assigned field takes the assigned value, a field assigned piecewise (`d.f.g = x`) is unknown.  Other values are
+    returned with their unwrap / updated wrappers peeled"""
+    ups = []
+    while isinstance(v, tuple) and v and v[0] in ('unwrap', 'updated'):
+        if v[0] == 'updated':
+            ups = list(v[2]) + ups     # inner wrappers are earlier assignments
+        v = v[1]
+    if v[0] != 'agg' or not ups:
+        return v
+    fields = dict(v[3])
+    for proj, uv in ups:
+        parts = [x for x in str(proj).split('.') if x]
+        if not parts:
+            return ('unknown', 'assigned as a whole')
+        fields[parts[0]] = uv if len(parts) == 1 else ('unknown', 'field %s assigned piecewise' % parts[0])
+    return (v[0], v[1], v[2], tuple(fields.items())) + tuple(v[4:])
+
+
+def piecewise_updates(v, _seen=None):
+    """projections `.f.g..` (more than one step) of the in-place assignments recorded anywhere inside value v: the field
+    lookup of the value algebra (`Slicer._field`) only honours assignments of a whole field, so a value read from `.f` of
+    such a base does not reflect them"""
+    out = []
+    stack = [v]
+    n = 0
+    while stack and n < 200000:
+        x = stack.pop()
+        n += 1
+        if not isinstance(x, tuple):
+            continue
+        if x and x[0] == 'updated' and len(x) > 2 and isinstance(x[2], tuple):
+            for it in x[2]:
+                if isinstance(it, tuple) and len(it) == 2 and isinstance(it[0], str) and it[0].count('.') > 1:
+                    out.append(it[0])
+        stack.extend(y for y in x if isinstance(y, tuple))
+    return sorted(set(out))
